@@ -815,7 +815,7 @@ static void soak_single_thread()
     }
     else
     {
-        mc::describe("safe_queue: %d push/pop operations on one queue, fill level sweeping 0..9", steps);
+        mc::describe("safe_queue: %d push/pop operations on one queue, fill level sweeping 0..45", steps);
         mc::crash_context("C20.soak.safe_queue.crash");
         igris::safe_queue<int> q;
         std::vector<int> ref;
@@ -823,7 +823,7 @@ static void soak_single_thread()
         int next = 0;
         for (int i = 0; i < steps; i++)
         {
-            size_t fill = ref.size() - head, target = (size_t)((i / 7) % 10);
+            size_t fill = ref.size() - head, target = (size_t)((i / 7) % 10 + ((i / 5000) % 4) * 12); // sweeps 0..9, 12..21, 24..33, 36..45
             if (fill < target || fill == 0)
             {
                 q.push(next);
